@@ -26,8 +26,11 @@ ParamNames == {"p", "q", "r", "id", "id2", "id_2", "i-d", "i.d", "user", "x", "y
 ParamSeg(name) == "{" \o name \o "}"
 WildSeg        == "*"
 
+\* the parameter segments of the vocabulary (a constant: TLC evaluates it once)
+ParamSegs    == {ParamSeg(n) : n \in ParamNames}
+
 IsWild(seg)  == seg = WildSeg
-IsParam(seg) == \E n \in ParamNames : seg = ParamSeg(n)
+IsParam(seg) == seg \in ParamSegs
 IsLit(seg)   == ~IsWild(seg) /\ ~IsParam(seg)
 \* name bound by a parameter segment (only meaningful when IsParam(seg))
 ParamName(seg) == CHOOSE n \in ParamNames : seg = ParamSeg(n)
@@ -106,12 +109,21 @@ Rank(p, i) == IF i <= NParts(p) THEN Kind(Parts(p)[i].v)
 
 MaxI(a, b) == IF a >= b THEN a ELSE b
 
+\* the ranks of positions 1..n at once (Parts(p) is built once)
+RankSeq(p, n) == LET pp == Parts(p)
+                     np == Len(pp)
+                     tl == IF np > 0 /\ IsWild(pp[np].v) THEN KWild ELSE KLit
+                 IN  [i \in 1..n |-> IF i <= np THEN Kind(pp[i].v) ELSE tl]
+
 \* p is strictly more specific than q (meant for two patterns that both match u; u is kept
 \* in the signature because "more specific" is only defined relative to a URL both match)
 MoreSpecific(p, q, u) ==
-    \E i \in 1..MaxI(NParts(p), NParts(q)) :
-        /\ Rank(p, i) > Rank(q, i)
-        /\ \A j \in 1..(i - 1) : Rank(p, j) = Rank(q, j)
+    LET n  == MaxI(NParts(p), NParts(q))
+        rp == RankSeq(p, n)
+        rq == RankSeq(q, n)
+    IN \E i \in 1..n :
+          /\ rp[i] > rq[i]
+          /\ \A j \in 1..(i - 1) : rp[j] = rq[j]
 
 \* same pattern up to the names of the parameters
 SameShape(p, q) ==
